@@ -416,13 +416,15 @@ Proof. split; reflexivity. Qed.
 Ltac mvsame := left; split; [reflexivity | cbn; lia].
 Lemma run_input_mv_rel f now s i : mv_rel f s (outcome_state (run_input f now s i) s).
 Proof.
-  destruct i as [ps ts ref md amd force | id force at_eff rmeta | [a|id] md | [a|id] k]; simpl.
-  - destruct ps as [|p ps']; [mvsame|].
+  script_split i.
+  { simpl. unfold create_tx. destruct ps as [|p ps']; [mvsame|].
     destruct (feasible force (s_vols s) (p :: ps')); simpl; [|mvsame].
     destruct (commit_transaction f now s (p :: ps') md ts ref) as [s1 [t|]] eqn:E; simpl.
     + pose proof (upsert_tx_accounts_frame f now s1 t amd) as (_ & _ & Hm & _ & _ & _ & _ & Hq).
       eapply mv_rel_then_same; [eapply commit_mv_rel; exact E | exact Hm | exact Hq].
-    + eapply commit_mv_rel; exact E.
+    + eapply commit_mv_rel; exact E. }
+  destruct i as [ps ts ref md amd force | id force at_eff rmeta | [a|id] md | [a|id] k | ps ts ref md amd force smd samd];
+    [apply Hc | | | | | | script_bullet Hc]; simpl.
   - destruct (find_tx (s_txs s) id) as [t|]; [|mvsame].
     destruct (t_rev t); [mvsame|].
     set (mark := fun x : tx => tx_with x (t_meta x) now (Some now)).
